@@ -31,6 +31,8 @@ func main() {
 		cmdBt(os.Args[2:])
 	case "gcsconc":
 		cmdGcsConc(os.Args[2:])
+	case "btscan":
+		cmdBtScan(os.Args[2:])
 	case "btconc":
 		cmdBtConc(os.Args[2:])
 	case "lock":
